@@ -56,18 +56,21 @@ impl<C: PixelColor> Iterator for StyledPixelsIterator<C> {
 
     fn next(&mut self) -> Option<Self::Item> {
         loop {
-            if let Some(p) = self.current_line.next() {
-                return Some(Pixel(p, self.current_color?));
-            } else {
-                let (next_line, next_type) = self.lines_iter.next()?;
-
-                self.current_line = next_line;
-
-                self.current_color = match next_type {
-                    PointType::Stroke => self.stroke_color,
-                    PointType::Fill => self.fill_color,
-                };
+            // Skip scanlines without a color instead of ending the iteration, to match `draw`.
+            if let Some(color) = self.current_color {
+                if let Some(p) = self.current_line.next() {
+                    return Some(Pixel(p, color));
+                }
             }
+
+            let (next_line, next_type) = self.lines_iter.next()?;
+
+            self.current_line = next_line;
+
+            self.current_color = match next_type {
+                PointType::Stroke => self.stroke_color,
+                PointType::Fill => self.fill_color,
+            };
         }
     }
 }
